@@ -645,7 +645,10 @@ def _constrain_ages(
         p, c = edges_parent[e], edges_child[e]
         # TODO: even if nodes_fixed[p], this will still change the age
         if nodes_time[c] + epsilon >= nodes_time[p]:
-            nodes_time[p] = nodes_time[c] + epsilon
+            # for large ages `epsilon` is absorbed, so step to the next float
+            nodes_time[p] = max(
+                nodes_time[c] + epsilon, np.nextafter(nodes_time[c], np.inf)
+            )
 
     return nodes_time
 
